@@ -151,7 +151,7 @@ class CollationManager(context_class_base):
             except BaseException as err:
                 self._current_lc_collate = None
                 _locale_collate_lock.release()
-                if isinstance(err, locale.Error):
+                if isinstance(err, (locale.Error, ValueError)):
                     msg = f"Unsupported collation {self.collation!r}"
                     raise xpath_error('FOCH0002', msg, self.token) from None
                 raise
